@@ -19,10 +19,12 @@ import (
 )
 
 const (
-	protocolOfflineID                  = "cmp/presign-offline"
-	protocolOnlineID                   = "cmp/presign-online"
-	protocolFullID                     = "cmp/presign-full"
-	protocolOfflineRounds round.Number = 7
+	protocolOfflineID = "cmp/presign-offline"
+	protocolOnlineID  = "cmp/presign-online"
+	protocolFullID    = "cmp/presign-full"
+	// the offline protocol outputs after round 7, but its second abort round
+	// has number 8 and its messages must be accepted as well.
+	protocolOfflineRounds round.Number = 8
 	protocolFullRounds    round.Number = 8
 )
 
